@@ -5746,6 +5746,33 @@ impl RelationalEngine {
 
     #[allow(clippy::significant_drop_tightening)] // Lock scope is intentional for atomicity
     fn btree_index_add(&self, table: &str, column: &str, value: &Value, row_id: u64) -> Result<()> {
+        self.btree_index_add_inner(table, column, value, row_id, true)
+    }
+
+    /// Puts back an ordered-index entry that a rolled-back statement removed.
+    ///
+    /// Not subject to `max_btree_entries`: the key a delete or update freed
+    /// may have been taken by another transaction since, and a rollback that
+    /// fails for lack of room would leave the restored row out of the index.
+    fn btree_index_restore(
+        &self,
+        table: &str,
+        column: &str,
+        value: &Value,
+        row_id: u64,
+    ) -> Result<()> {
+        self.btree_index_add_inner(table, column, value, row_id, false)
+    }
+
+    #[allow(clippy::significant_drop_tightening)] // Lock scope is intentional for atomicity
+    fn btree_index_add_inner(
+        &self,
+        table: &str,
+        column: &str,
+        value: &Value,
+        row_id: u64,
+        enforce_limit: bool,
+    ) -> Result<()> {
         let key = (table.to_string(), column.to_string());
         let ordered_key = OrderedKey::from_value(value);
         let sortable = value.sortable_key();
@@ -5759,7 +5786,7 @@ impl RelationalEngine {
 
             // Check if this is a new key (will add memory)
             let is_new_key = !btree.contains_key(&ordered_key);
-            if is_new_key {
+            if is_new_key && enforce_limit {
                 // Check bounds before adding new entry
                 let current = self.btree_entry_count.load(Ordering::Relaxed);
                 if current >= self.max_btree_entries {
@@ -6672,9 +6699,12 @@ impl RelationalEngine {
                         ));
                     }
                     if self.has_btree_index(table, &change.column) {
-                        if let Err(e) =
-                            self.btree_index_add(table, &change.column, &change.old_value, *row_id)
-                        {
+                        if let Err(e) = self.btree_index_restore(
+                            table,
+                            &change.column,
+                            &change.old_value,
+                            *row_id,
+                        ) {
                             errors.push(format!(
                                 "Failed to add btree index for {table}.{}: {e}",
                                 change.column
@@ -6710,7 +6740,7 @@ impl RelationalEngine {
                         }
                     }
                     if self.has_btree_index(table, col) {
-                        if let Err(e) = self.btree_index_add(table, col, value, *row_id) {
+                        if let Err(e) = self.btree_index_restore(table, col, value, *row_id) {
                             errors.push(format!(
                                 "Failed to add btree index entry for {table}.{col}: {e}"
                             ));
